@@ -221,7 +221,7 @@ theorem C16_pickle_eager_noop (cfg : Cfg) (s : State) (h : Hnd) (o : Inst) (fail
 
 /-! ## non-vacuity and regression witnesses -/
 
-def exCfg16 : Cfg := { lazyUpdate := fun c => c == 1, cacheValues := fun _ => true, ncols := fun _ => 3, doCache := true }
+def exCfg16 : Cfg := { lazyUpdate := fun c => c == 1, cacheValues := fun _ => true, ncols := fun _ => 3, fk := fun _ => none, doCache := true }
 
 /-- three assignments (x twice), then sync(): exactly one UPDATE with x = the later value, y; z untouched -/
 example : (run exCfg16 init
